@@ -4,6 +4,7 @@ import io
 import contextlib
 import itertools
 import os
+import re
 
 from tools import common, shroudrun
 from tools.gen import libgen
@@ -105,15 +106,46 @@ def run(ctx, r, ok, thorough):
                     out += all_functions(ns)
         return out
 
+    current = {}
+
+    def effective(dd):
+        """name -> effective wrap_* options of the declaration(s) with that name, from the YAML alone"""
+        eff = {}
+        keys = ("wrap_c", "wrap_fortran", "wrap_python", "wrap_lua")
+
+        def walk(decls, inh):
+            for d in decls:
+                o = dict(inh)
+                o.update({k: bool(v) for k, v in (d.get("options") or {}).items() if k in keys})
+                if "declarations" in d:
+                    walk(d["declarations"], o)
+                    continue
+                if d["decl"].split()[0] in ("enum", "typedef", "struct", "class", "namespace"):
+                    continue
+                m = re.search(r"(~?\w+)\s*\(", d["decl"])
+                if m:
+                    e = eff.setdefault(m.group(1), dict.fromkeys(keys, False))
+                    for k in keys:
+                        e[k] = e[k] or o[k]
+        top = {k: bool((dd.get("options") or {}).get(k, k in ("wrap_c", "wrap_fortran"))) for k in keys}
+        walk(dd["declarations"], top)
+        return eff
+
     def spy(node):
         # implementation-only invariant (no model): after the generate phase no function node - original or
-        # generated clone - is wrapped for a language that its own options switch off
+        # generated clone - is wrapped for a language that the description switches off for that declaration
+        # (effective wrap_* options as stated in the YAML, inherited downwards; NOT node.options, which
+        # arg_to_CFI mutates on purpose)
         try:
+            eff = current.get("eff") or {}
             for fn in all_functions(node):
+                want = eff.get(fn.ast.name)
+                if want is None:
+                    continue
                 for lang, opt in (("c", "wrap_c"), ("fortran", "wrap_fortran"), ("python", "wrap_python"), ("lua", "wrap_lua")):
-                    if getattr(fn.wrap, lang) and not getattr(fn.options, opt):
+                    if getattr(fn.wrap, lang) and not want[opt]:
                         captured.setdefault("flag_escapes", []).append(
-                            "%s (%s) has wrap.%s on although its option %s is false" % (fn.ast.name, getattr(fn, "_generated", None), lang, opt))
+                            "%s (%s) has wrap.%s on although %s is false for that declaration" % (fn.ast.name, getattr(fn, "_generated", None), lang, opt))
         except Exception as e:  # noqa: keep the harness alive
             captured.setdefault("flag_escapes_error", repr(e))
         captured["before"] = tree_tokens(node)
@@ -121,7 +153,27 @@ def run(ctx, r, ok, thorough):
         captured["after"] = tree_flags_pre(node)
         return res
 
+    def clone_shapes(lib):
+        """Declarations whose processing in generate.py creates clones (fortran_generic, function templates,
+        assumed rank, return_this, bufferify/CFI): the clone kinds that assign wrap flags on their own."""
+        cxx = lib.language != "c"
+        ex = [{"decl": "void xgen(double arg)", "fortran_generic": [
+                   {"decl": "(float arg)", "function_suffix": "_float"}, {"decl": "(double arg)", "function_suffix": "_double"}]},
+              {"decl": "int xrank(const int *values +dimension(..), int nvalues)"},
+              {"decl": "void xgen2(double *a +rank(1), int n)", "fortran_generic": [
+                   {"decl": "(float *a +rank(1), int n)", "function_suffix": "_f"}, {"decl": "(double *a +rank(1), int n)", "function_suffix": "_d"}]}]
+        if cxx:
+            ex.append({"decl": "template<typename T> void xtmpl(T arg)", "cxx_template": [{"instantiation": "<int>"}, {"instantiation": "<double>"}]})
+            ex.append({"decl": "const std::string xstr(const std::string & s, int d = 2)"})
+            ex.append({"decl": "class Xchain", "declarations": [
+                {"decl": "Xchain()"}, {"decl": "Xchain * xlink(int a)", "return_this": True}, {"decl": "int xval(int a = 1, int b = 2)"}]})
+        else:
+            ex.append({"decl": "void xcstr(const char *s, char *o +intent(out)+charlen(12))"})
+        r.shuffle(ex)
+        return ex[:r.randrange(2, len(ex) + 1)]
+
     nlib = 60 if thorough else 16
+    skipped = {}
     work = common.scratch()
     calls = []
     patched = {}
@@ -141,8 +193,101 @@ def run(ctx, r, ok, thorough):
         calls.append("util")
         return orig_util(self, *a, **k)
 
+    # ---- clone-making steps of GenFunctions and node construction, observed on the real code
+    steps_seen = []       # (request, implementation answer)
+    kinds_seen = {}
+    LANGOPT = ("wrap_fortran", "wrap_c", "wrap_lua", "wrap_python")
+
+    def result_by_value(node):
+        a = node.ast
+        tm = a.typemap
+        return bool(tm and tm.base in ("string", "vector") and tm.name != "char" and not a.is_indirect())
+
+    def vector_arg(node):
+        return any(getattr(arg.typemap, "base", None) == "vector" for arg in node.ast.params)
+
+    def make_step_spy(name, kind):
+        orig = getattr(generate.GenFunctions, name)
+
+        def f(self, node, ordered, *a, **k):
+            try:
+                before = bits(node.wrap)
+                d = bits(sast.WrapFlags(node.options))
+                rbv, vec = result_by_value(node), vector_arg(node)
+                if kind == "cxx_template":
+                    ncl = len(node.template_arguments) if name == "template_function" else 1
+                elif kind == "has_default_arg":
+                    ncl = sum(1 for arg in node.ast.params if arg.init is not None)
+                else:
+                    ncl = 0
+                n0 = len(ordered)
+            except Exception as e:  # noqa
+                captured.setdefault("step_spy_error", repr(e))
+                return orig(self, node, ordered, *a, **k)
+            res = orig(self, node, ordered, *a, **k)
+            try:
+                clones = ordered[n0:]
+                newc = "-"
+                if kind == "fortran_generic":
+                    tags = [c._generated for c in clones]
+                    nb = []
+                    for i, t in enumerate(tags):
+                        if t == "fortran_generic":
+                            nb.append("1" if i + 1 < len(tags) and tags[i + 1] == "fortran_generic_c" else "0")
+                    newc = "".join(nb) or "-"
+                facts = "".join("1" if x else "0" for x in (len(clones) > 0, rbv, vec, len(clones) == 2 and kind != "fortran_generic"))
+                req = "step %s %d %s %s %s %s" % (kind, ncl, facts, newc, d, before)
+                steps_seen.append((req, " ".join([bits(node.wrap)] + [bits(c.wrap) for c in clones]), node.ast.name))
+                kinds_seen[kind] = kinds_seen.get(kind, 0) + 1
+            except Exception as e:  # noqa
+                captured.setdefault("step_spy_error", repr(e))
+            return res
+        patched_gen[name] = orig
+        setattr(generate.GenFunctions, name, f)
+
+    patched_gen = {}
+    inits_seen = []
+
+    def own_block(scope):
+        return "".join(("1" if scope.__dict__[k] else "0") if k in scope.__dict__ else "-" for k in LANGOPT)
+
+    def chain_of(scope):
+        out = []
+        while scope is not None:
+            out.append(own_block(scope))
+            scope = scope.get_parent()
+        return out
+
+    def all_nodes(node):
+        kind = type(node).__name__
+        out = [node]
+        if kind in ("LibraryNode", "NamespaceNode", "ClassNode"):
+            for grp in (node.classes, node.enums, node.functions, node.typedefs, node.variables):
+                for x in grp:
+                    out += all_nodes(x)
+            if kind != "ClassNode":
+                for ns in node.namespaces:
+                    out += all_nodes(ns)
+        return out
+
+    orig_gen_library = generate.GenFunctions.gen_library
+
+    def gen_library_spy(self, *a, **k):
+        try:
+            for nd in all_nodes(self.newlibrary):
+                inits_seen.append(("init " + " ".join(chain_of(nd.options)), bits(nd.wrap),
+                                   "%s %s" % (type(nd).__name__, getattr(nd, "name", None) or getattr(getattr(nd, "ast", None), "name", "?"))))
+        except Exception as e:  # noqa
+            captured.setdefault("init_spy_error", repr(e))
+        return orig_gen_library(self, *a, **k)
+
     try:
         sast.promote_wrap = spy
+        generate.GenFunctions.gen_library = gen_library_spy
+        for mname, kind in (("template_function", "cxx_template"), ("template_function2", "cxx_template"),
+                            ("has_default_args", "has_default_arg"), ("process_return_this", "return_this"),
+                            ("arg_to_CFI", "arg_to_cfi"), ("arg_to_buffer", "arg_to_buffer"), ("generic_function", "fortran_generic")):
+            make_step_spy(mname, kind)
         make_spy(wrapc.Wrapc, "wrapc")
         make_spy(wrapf.Wrapf, "wrapf")
         make_spy(wrapp.Wrapp, "wrapp")
@@ -153,23 +298,42 @@ def run(ctx, r, ok, thorough):
             if flags[0] and not flags[1]:
                 flags[1] = True
             lib = libgen.gen_lib(r, name="fl%d" % i, options=dict(wrap_fortran=flags[0], wrap_c=flags[1], wrap_lua=flags[2], wrap_python=flags[3]))
+            shapes = clone_shapes(lib) if i % 2 == 0 else []
+            lib.decls.extend(shapes)
+            if shapes and r.random() < 0.4:
+                lib.options["F_CFI"] = True
+            for sh in shapes:
+                ctx.cov.setdefault("clone_shapes", {}).setdefault(sh["decl"].split("(")[0].split()[-1], 0)
+                ctx.cov["clone_shapes"][sh["decl"].split("(")[0].split()[-1]] += 1
             # sprinkle per-declaration overrides at every depth
-            def sprinkle(decls, depth):
+            def sprinkle(decls, depth, inh):
                 for d in decls:
                     if r.random() < (0.3 if depth == 0 else 0.35):
-                        d.setdefault("options", {})[r.choice(["wrap_c", "wrap_fortran", "wrap_python", "wrap_lua"])] = r.random() < 0.6
-                        if d["options"].get("wrap_fortran") and not d["options"].get("wrap_c", lib.options.get("wrap_c")):
-                            d["options"]["wrap_c"] = True
+                        o = d.setdefault("options", {})
+                        o[r.choice(["wrap_c", "wrap_fortran", "wrap_python", "wrap_lua"])] = r.random() < 0.6
+                        # Fortran is only requested together with C (the property's quantifier), also through inheritance
+                        if o.get("wrap_fortran") and not o.get("wrap_c", inh["wrap_c"]):
+                            o["wrap_c"] = True
+                        if o.get("wrap_c") is False and o.get("wrap_fortran", inh["wrap_fortran"]):
+                            o["wrap_fortran"] = False
                     if "declarations" in d:
-                        sprinkle(d["declarations"], depth + 1)
-            sprinkle(lib.decls, 0)
+                        eff = dict(inh)
+                        eff.update({k: v for k, v in (d.get("options") or {}).items() if k in eff})
+                        sprinkle(d["declarations"], depth + 1, eff)
+            sprinkle(lib.decls, 0, {"wrap_c": bool(lib.options.get("wrap_c")), "wrap_fortran": bool(lib.options.get("wrap_fortran"))})
+            for d0 in lib.decls:
+                if d0["decl"].startswith("int xrank"):
+                    d0.setdefault("options", {})["wrap_python"] = False      # the Python wrapper rejects assumed rank
             d = os.path.join(work, "fl%d" % i)
             os.makedirs(d)
             y = shroudrun.write_yaml(d, "fl%d.yaml" % i, lib.yaml())
             captured.clear()
             del calls[:]
+            current["eff"] = effective(lib.todict())
             cfg, exc, out = shroudrun.run_inproc([y], d)
+            current["eff"] = None
             if exc is not None or "before" not in captured:
+                skipped[repr(exc)[:80]] = skipped.get(repr(exc)[:80], 0) + 1
                 continue
             for esc in captured.get("flag_escapes", [])[:3]:
                 ctx.fail("c15:clone-wrapped-against-options:" + esc.split(" ")[0], esc, {"yaml": lib.yaml()})
@@ -227,17 +391,36 @@ def run(ctx, r, ok, thorough):
                     ctx.nontrivial(("dclone", f, c, nd))
     finally:
         sast.promote_wrap = orig_promote
+        generate.GenFunctions.gen_library = orig_gen_library
+        for mname, orig in patched_gen.items():
+            setattr(generate.GenFunctions, mname, orig)
         for cls, orig in patched.items():
             cls.wrap_library = orig
         wrapc.Wrapc.write_impl_utility = orig_util
         common.rmtree(work)
 
+    ctx.note("promote_runs_skipped", skipped)
+    seen = set()
+    ctxinfo = {}
+    for req, ans, who in steps_seen + inits_seen:
+        if (req, ans) in seen:
+            continue
+        seen.add((req, ans))
+        ctxinfo[len(reqs)] = who
+        reqs.append(req)
+        impl.append(ans)
+    ctx.note("clone_steps_observed", kinds_seen)
+    ctx.note("clone_steps_distinct", len([1 for q in reqs if q.startswith("step ")]))
+    ctx.note("node_inits_distinct", len([1 for q in reqs if q.startswith("init ")]))
+    for key in ("step_spy_error", "init_spy_error"):
+        if captured.get(key):
+            ctx.note(key, captured[key])
     ctx.count(len(reqs))
     ctx.note("flag_requests", len(reqs))
     drv = common.Driver("drv_flags")
     if ok and drv.available():
         model = drv.run(reqs)
-        bad = [{"request": q, "impl": a, "model": b} for q, a, b in zip(reqs, impl, model) if a != b]
+        bad = [{"request": q, "impl": a, "model": b, "node": ctxinfo.get(i)} for i, (q, a, b) in enumerate(zip(reqs, impl, model)) if a != b]
         if bad:
             ctx.tie_broken("flags-correspondence", bad[:5])
         ctx.note("flag_disagreements", len(bad))
